@@ -118,7 +118,7 @@ func init() {
 	})
 	// args: kind(0 plain,1 html,2 gemini,3 markdown) content nwidths widths...
 	// result: ok?, nlinks links..., then one rendering per width
-	register("render", func(a []int) []int {
+	renderOp := func(a []int) []int {
 		r := &reader{toks: a}
 		kind := r.next()
 		content := r.text()
@@ -154,5 +154,8 @@ func init() {
 			out = putText(out, m.Render(w))
 		}
 		return out
-	})
+	}
+	register("render", renderOp)
+	// the same without a model run (C06 only needs the implementation to return normally and promptly)
+	register("rendernm", func(a []int) []int { r := renderOp(a); libOut = nil; return r })
 }
